@@ -14,7 +14,7 @@ pub fn checker_inputs() -> Vec<(String, CkCase)> {
     let mut v: Vec<(String, CkCase)> = vec![];
     let mut add = |name: &str, preds: Vec<PredCase>, sols: Vec<SolCase>| {
         for collect_all in [false, true] {
-            v.push((format!("{name}/collect_all={collect_all}"), CkCase { preds: preds.clone(), sols: sols.clone(), pre: vec![(0xC1, vec![0], vec![5])], strict: false, collect_all }));
+            v.push((format!("{name}/collect_all={collect_all}"), CkCase { preds: preds.clone(), sols: sols.clone(), pre: vec![(0xC1, vec![0], vec![5])], strict: false, short: false, collect_all }));
         }
     };
     // diamond 0 -> {1,2} -> 3
